@@ -1,5 +1,6 @@
 import PlushModel
 import PlushProofs.Lib.LexerSim
+import PlushProofs.Lib.StringLit
 /-!
   C18 — layout inside code tags is insignificant: whitespace, comments, tag splitting.
   `Gen.isWhitespace`, `Gen.isLetter`, `Gen.isDigit` are TRANSLATED from lexer.go on every run.
@@ -96,5 +97,22 @@ example : LX.Layout c18DemoStart c18DemoEnd ∧ c18DemoEnd.pos = 6 ∧ c18DemoEn
   apply LX.Layout.comment _ _ (by decide)
   apply LX.Layout.ws _ _ (by decide)
   exact LX.Layout.here _
+
+/-- **what is inside a string literal is inert**: whatever the content `c` of a double-quoted string is — `%>`, `<%`,
+    `#`, newlines, braces, semicolons — the scanner comes out of the string exactly one byte after its closing quote and is
+    still in code mode: nothing inside was taken for a tag delimiter, a comment or a statement boundary. -/
+theorem C18_string_contents_are_inert (l : LX) (w : l.WF) (hin : l.inside = true) (hch : l.ch = 34)
+    (c : Bytes) (hno : ∀ x ∈ c, x ≠ 0 ∧ x ≠ 92) (hs : LX.Spells l.input (l.pos + 1) (LX.escQ c ++ [34])) :
+    l.nextToken.2.pos = l.pos + 2 + (LX.escQ c).length ∧ l.nextToken.2.inside = true ∧ l.nextToken.1.type = .STRING := by
+  have h := LX.nextToken_string l w hin hch c hno hs
+  exact ⟨h.2.1, h.2.2.1, by rw [h.1]⟩
+
+/-- the same for back-quoted strings -/
+theorem C18_raw_string_contents_are_inert (l : LX) (w : l.WF) (hin : l.inside = true) (hch : l.ch = 96) (e : Nat)
+    (hlt : l.pos < e) (hcl : l.input.getD e 0 = 96)
+    (hb : ∀ i, l.pos < i → i < e → l.input.getD i 0 ≠ 96 ∧ l.input.getD i 0 ≠ 0) :
+    l.nextToken.2.pos = e + 1 ∧ l.nextToken.2.inside = true ∧ l.nextToken.1.type = .B_STRING := by
+  have h := LX.nextToken_bstring l w hin hch e hlt hcl hb
+  exact ⟨h.2.1, h.2.2.1, by rw [h.1]⟩
 
 end Plush
